@@ -2,6 +2,7 @@ package main
 
 import (
 	"fmt"
+	"go/ast"
 	"go/token"
 	"go/types"
 	"os"
@@ -29,6 +30,7 @@ type Engine struct {
 	fnIDs       map[*ssa.Function]int
 	globIDs     map[*types.Var]int
 	specFiles   []string
+	globCache   map[string]string
 }
 
 func LoadEngine(repo string, patterns []string, extraSpecs []string) (*Engine, error) {
@@ -303,11 +305,39 @@ func (eng *Engine) runTop(c *FnCtx, fn *ssa.Function, fs *FuncSpec) {
 	for _, g := range fs.Ghosts {
 		ghosts[g.Name] = env.vars[g.Name]
 	}
+	c.ghosts = ghosts
 	c.modLocs = env.evalModLocs(fs.Modifies, fs.ModSrc)
 	c.hasMod = true
 	for _, r := range fs.Requires {
 		c.addFact(env.evalBool(r.Expr))
 	}
+	// behavioural subtyping: the method also answers to its interface contract
+	var ifs *FuncSpec
+	ifaceVars := map[string]Val{}
+	if fs.Implements != "" {
+		ifs = eng.spec.Funcs[fs.Pkg+"::iface:"+fs.Implements]
+		if ifs == nil {
+			panic(specErr("implements: no interface contract %s", fs.Implements))
+		}
+		for i, p := range ifs.Params {
+			if i >= len(args) {
+				break
+			}
+			a := args[i]
+			if i == 0 && fn.Signature.Recv() != nil {
+				if _, isI := a.T.Underlying().(*types.Interface); !isI {
+					a = c.makeInterface(a, a.T, types.NewInterfaceType(nil, nil))
+				}
+			}
+			ifaceVars[p.Name] = a
+			env.vars[p.Name] = a
+		}
+		c.modLocs = append(c.modLocs, env.evalModLocs(ifs.Modifies, ifs.ModSrc)...)
+		for _, r := range ifs.Requires {
+			c.addFact(env.evalBool(r.Expr))
+		}
+	}
+	eng.assumeGlobals(c, st)
 	// closures: free variables
 	var bindings []Val
 	for _, fv := range fn.FreeVars {
@@ -349,6 +379,14 @@ func (eng *Engine) runTop(c *FnCtx, fn *ssa.Function, fs *FuncSpec) {
 		for _, u := range fs.Uses {
 			if u.At == "exit" {
 				c.useLemma(u, renv)
+			}
+		}
+		for k, v := range ifaceVars {
+			renv.vars[k] = v
+		}
+		if ifs != nil {
+			for i, en := range ifs.Ensures {
+				c.oblige("ensures", fmt.Sprintf("%s.ensures%d", fs.Implements, i+1), clauseTags(en, c.tags), r.cond, renv.evalBool(en.Expr), f.pos(fn.Pos()), "interface contract "+fs.Implements+": "+en.Src)
 			}
 		}
 		for i, en := range fs.Ensures {
@@ -443,6 +481,102 @@ func (eng *Engine) lemmaPkg(lm *Lemma) *types.Package {
 				return p.Types
 			}
 		}
+	}
+	return nil
+}
+
+// assumeGlobals adds the "global <expr>" facts (initial values of package variables that are never
+// stored to outside init) to a context.
+func (eng *Engine) assumeGlobals(c *FnCtx, st *State) {
+	for _, g := range eng.spec.Globals {
+		pkg := eng.typesPkg(g.Name)
+		if pkg == nil {
+			continue
+		}
+		if bad := eng.globalsMutated(g, pkg); bad != "" {
+			c.note("global fact dropped (" + g.Src + "): " + bad)
+			continue
+		}
+		env := &Env{c: c, vars: map[string]Val{}, cur: st, old: st, pkg: pkg, guard: TTrue}
+		c.addFact(env.evalBool(g.Expr))
+		c.assumed["global-initial-value: "+g.Src] = true
+	}
+}
+
+// globalsMutated reports a store to any package variable mentioned in the clause outside init.
+func (eng *Engine) globalsMutated(g Clause, pkg *types.Package) string {
+	if eng.globCache == nil {
+		eng.globCache = map[string]string{}
+	}
+	if r, ok := eng.globCache[g.Src]; ok {
+		return r
+	}
+	res := ""
+	sp := eng.spkgs[pkg.Path()]
+	names := map[string]bool{}
+	ast.Inspect(g.Expr, func(n ast.Node) bool {
+		if id, ok := n.(*ast.Ident); ok {
+			if _, isVar := pkg.Scope().Lookup(id.Name).(*types.Var); isVar {
+				names[id.Name] = true
+			}
+		}
+		return true
+	})
+	if sp != nil {
+		var fns []*ssa.Function
+		for _, m := range sp.Members {
+			if f, ok := m.(*ssa.Function); ok {
+				fns = append(fns, f)
+			}
+			if t, ok := m.(*ssa.Type); ok {
+				for _, T := range []types.Type{t.Type(), types.NewPointer(t.Type())} {
+					ms := eng.prog.MethodSets.MethodSet(T)
+					for i := 0; i < ms.Len(); i++ {
+						if f := eng.prog.MethodValue(ms.At(i)); f != nil {
+							fns = append(fns, f)
+						}
+					}
+				}
+			}
+		}
+		var visit func(f *ssa.Function)
+		seen := map[*ssa.Function]bool{}
+		visit = func(f *ssa.Function) {
+			if seen[f] || f == nil {
+				return
+			}
+			seen[f] = true
+			if f.Name() != "init" {
+				for _, b := range f.Blocks {
+					for _, in := range b.Instrs {
+						if s, ok := in.(*ssa.Store); ok {
+							if gl := rootGlobal(s.Addr); gl != nil && names[gl.Name()] {
+								res = "stored to in " + f.String()
+							}
+						}
+					}
+				}
+			}
+			for _, a := range f.AnonFuncs {
+				visit(a)
+			}
+		}
+		for _, f := range fns {
+			visit(f)
+		}
+	}
+	eng.globCache[g.Src] = res
+	return res
+}
+
+func rootGlobal(v ssa.Value) *ssa.Global {
+	switch t := v.(type) {
+	case *ssa.Global:
+		return t
+	case *ssa.FieldAddr:
+		return rootGlobal(t.X)
+	case *ssa.IndexAddr:
+		return rootGlobal(t.X)
 	}
 	return nil
 }
